@@ -83,21 +83,31 @@ def profiles_for(pid, tier):
     N = (lambda a, b: a if q else b)
     base = dict(n_ops=45 if q else 70)
     three = dict(base, apps=["a", "b", "a2"], sides=["s1", "s2", "s3", "s4"])
+    # identifiers that differ only by letter case, by Unicode normalisation form (NFC / NFD, Angstrom / A-ring), by width or by
+    # surrounding blanks: the server must keep every one of them apart; scalars that look like numbers, hex, JSON, SQL wildcards
+    look = dict(base, apps=["caf\u00e9", "cafe\u0301", "App", "app"], sides=["a1b2", "A1B2", "s\u00e9", "se\u0301", "a1b2 "],
+                names=["1", "\uff11", "ab", "AB", "\u00e9", "e\u0301", "1 "], client_mailboxes=["mb", "MB", "m\u00e9", "me\u0301"],
+                odd_scalars=True)
     P = {
-        "C01": [("general", dict(three, w_add=16, w_open=12, w_sweep=3, w_restart=2), N(160, 1500)),
+        "C01": [("bulk-expired", dict(_special="bulk", mode="expired"), N(1, 4)),
+                ("lookalike", dict(look, w_add=16, w_open=12, w_sweep=2, w_restart=2), N(80, 600)),
+                ("general", dict(three, w_add=16, w_open=12, w_sweep=3, w_restart=2), N(160, 1500)),
                 ("reuse", dict(base, apps=["a", "b"], client_mailboxes=["m1"], names=["1"], w_add=14, w_open=12, w_close=12,
                                w_claim=3, w_allocate=0, w_sweep=4, w_restart=2), N(120, 1200)),
                 ("ints", dict(base, int_ids=True, w_add=16, w_open=12), N(40, 300)),
                 ("shared-ids", dict(base, apps=["a", "b"], shared_mailbox_ids=True, client_mailboxes=["m1", "m2"], w_add=16,
                                     w_open=14, w_claim=2, w_allocate=0), N(80, 600))],
-        "C02": [("general", dict(three, w_add=18, w_open=12, w_reconnect=8, w_sweep=4, w_restart=2), N(160, 1500)),
+        "C02": [("bulk-subscribed", dict(_special="bulk", mode="subscribed"), N(1, 4)),
+                ("lookalike", dict(look, w_add=18, w_open=12, w_reconnect=6, w_restart=1), N(80, 600)),
+                ("general", dict(three, w_add=18, w_open=12, w_reconnect=8, w_sweep=4, w_restart=2), N(160, 1500)),
                 ("ints", dict(base, int_ids=True, w_add=18, w_open=12, w_reconnect=6), N(60, 400)),
                 ("restart-sweep", dict(base, apps=["a"], sides=["s1", "s2"], client_mailboxes=["m1"], names=["1"], w_claim=2,
                                        w_allocate=0, w_add=16, w_open=14, w_close=3, w_sweep=8, w_restart=5, w_connect=10,
                                        w_bigjump=0), N(160, 1500)),
                 ("shared-ids", dict(base, apps=["a", "b"], shared_mailbox_ids=True, client_mailboxes=["m1", "m2"], w_add=16,
                                     w_open=14, w_claim=2, w_allocate=0), N(80, 600))],
-        "C03": [("general", dict(three, w_claim=16, w_release=8, w_close=8, w_restart=2, w_sweep=3, names=["1", "2", "7"]), N(200, 2000)),
+        "C03": [("lookalike", dict(look, w_claim=16, w_release=8, w_close=6, w_restart=2), N(80, 600)),
+                ("general", dict(three, w_claim=16, w_release=8, w_close=8, w_restart=2, w_sweep=3, names=["1", "2", "7"]), N(200, 2000)),
                 ("late-claim", dict(_special="late-claim"), N(30, 200)),
                 # one name, two or three sides, frequent restarts: whatever a command left uncommitted is lost at the
                 # restart, and the claims that follow must still agree with the history
@@ -108,22 +118,26 @@ def profiles_for(pid, tier):
                                  w_sweep=2), N(160, 1500)),
                 ("fill", dict(_special="fill"), N(24, 120)),
                 ("alloc-paired", dict(_special="alloc-paired"), N(40, 300))],
-        "C05": [("third", dict(base, apps=["a"], sides=["s1", "s2", "s3", "s4"], names=["1", "2"], client_mailboxes=["m1"],
+        "C05": [("lookalike", dict(look, apps=["App"], names=["ab", "AB"], client_mailboxes=["mb"], w_claim=12, w_open=12, w_close=6, w_add=10, w_reconnect=8), N(80, 600)),
+                ("third", dict(base, apps=["a"], sides=["s1", "s2", "s3", "s4"], names=["1", "2"], client_mailboxes=["m1"],
                                w_claim=12, w_open=12, w_close=8, w_release=6, w_add=10, w_reconnect=10, w_restart=1), N(220, 2000))],
-        "C06": [("two-apps", dict(base, apps=["a", "b"], sides=["s1", "s2"], names=["1", "2"], client_mailboxes=["m1"], w_sweep=3,
+        "C06": [("lookalike", dict(look, w_sweep=3, w_restart=1, w_add=12, w_open=12), N(80, 600)),
+                ("two-apps", dict(base, apps=["a", "b"], sides=["s1", "s2"], names=["1", "2"], client_mailboxes=["m1"], w_sweep=3,
                                   w_restart=1), N(120, 1000)),
                 ("odd-strings", dict(base, apps=["a", "b", ""], sides=["s1", "", "s1 "], names=["1", ""], client_mailboxes=["m1", ""],
                                      w_malformed=8, w_add=12, w_open=10), N(80, 600)),
                 ("id-reuse", dict(base, apps=["a", "b"], sides=["s1", "s2"], names=["1"], shared_mailbox_ids=True,
                                   client_mailboxes=["m1"], w_open=14, w_add=12, w_close=6, w_drop=8, w_sweep=6, w_bigjump=6,
                                   w_claim=2, w_allocate=0, w_restart=0), N(100, 800))],
-        "C07": [("general", dict(three, w_claim=14, w_release=12, w_close=8, w_list=8, names=["1", "2", "7"], w_reconnect=8), N(200, 2000)),
+        "C07": [("lookalike", dict(look, w_claim=14, w_release=12, w_close=8, w_list=8, w_reconnect=8), N(80, 600)),
+                ("general", dict(three, w_claim=14, w_release=12, w_close=8, w_list=8, names=["1", "2", "7"], w_reconnect=8), N(200, 2000)),
                 ("near-ids", dict(base, apps=["a", "b"], sides=["s1", "s2"], names=["1", "2", "12", "21"], p_near_ids=0.5, w_claim=12,
                                   w_open=14, w_close=14, w_release=6, w_list=6, w_add=4), N(120, 1000)),
                 ("crowded-release", dict(base, apps=["a"], sides=["s1", "s2", "s3", "s4"], names=["1"], client_mailboxes=["m1"],
                                          w_claim=16, w_release=16, w_list=6, w_open=2, w_add=1, w_close=3, w_allocate=0,
                                          w_reconnect=8, w_connect=10), N(100, 800))],
-        "C08": [("general", dict(three, w_close=14, w_open=12, w_claim=10, w_release=6, w_reconnect=8, names=["1", "2"],
+        "C08": [("lookalike", dict(look, w_close=14, w_open=12, w_claim=10, w_release=6, w_reconnect=8), N(80, 600)),
+                ("general", dict(three, w_close=14, w_open=12, w_claim=10, w_release=6, w_reconnect=8, names=["1", "2"],
                                  sides=["s1", "s2"]), N(200, 2000)),
                 ("third", dict(base, apps=["a"], sides=["s1", "s2", "s3"], names=["1"], client_mailboxes=["m1"], w_close=14,
                                w_open=12, w_claim=10), N(60, 500)),
@@ -141,13 +155,15 @@ def profiles_for(pid, tier):
                 ("small-world", dict(base, n_ops=60, apps=["a"], sides=["s1", "s2"], names=["1"], client_mailboxes=["m1"],
                                      w_open=14, w_close=12, w_add=8, w_reconnect=12, w_drop=6, w_claim=3, w_allocate=0,
                                      w_release=2, w_sweep=7, w_bigjump=5, w_restart=4), N(160, 1500))],
-        "C12": [("timer", dict(three, _mode={"timer": True}, timer=True, w_sweep=6, w_crash=0, w_reconnect=6, w_bigjump=2), N(160, 1500)),
+        "C12": [("bulk-subscribed", dict(_special="bulk", mode="subscribed"), N(1, 4)),
+                ("timer", dict(three, _mode={"timer": True}, timer=True, w_sweep=6, w_crash=0, w_reconnect=6, w_bigjump=2), N(160, 1500)),
                 ("direct", dict(three, w_sweep=8, w_bigjump=3), N(100, 800)),
                 # usage blurring configured, the history crosses a multiple of the blur interval: recorded times are
                 # coarse, expiry decisions must not be
                 ("timer-blur-boundary", dict(three, _mode={"timer": True}, timer=True, start="boundary", usage=True, w_sweep=8, w_drop=6,
                                              w_reconnect=8, w_crash=0, w_restart=1), N(80, 600))],
-        "C13": [("timer-quiesce", dict(three, _mode={"timer": True}, timer=True, w_sweep=5, quiesce=True, p_fault=0.25), N(160, 1500)),
+        "C13": [("bulk-expired", dict(_special="bulk", mode="expired"), N(1, 4)),
+                ("timer-quiesce", dict(three, _mode={"timer": True}, timer=True, w_sweep=5, quiesce=True, p_fault=0.25), N(160, 1500)),
                 ("crash-quiesce", dict(base, w_crash=4, w_sweep=4, quiesce=True, w_fault=2, usage=True), N(100, 800)),
                 ("odd-apps-shared-ids", dict(base, apps=["a", "", "ü"], sides=["s1", "s2"], names=["1", ""], shared_mailbox_ids=True,
                                              client_mailboxes=["m1"], w_open=12, w_add=12, w_sweep=4, quiesce=True), N(100, 800))],
@@ -171,7 +187,8 @@ def profiles_for(pid, tier):
                 # (written by the sweep that expires it) must be blurred like every other
                 ("crash-blur", dict(base, usage=True, blur="rand", w_crash=9, w_claim=14, w_allocate=6, w_sweep=5, w_bigjump=4,
                                     quiesce=True), N(80, 600))],
-        "C17": [("malformed", dict(three, w_malformed=14), N(200, 2000)),
+        "C17": [("lookalike", dict(look, w_malformed=8, w_release=10, w_close=10, w_claim=10, w_open=10), N(80, 600)),
+                ("malformed", dict(three, w_malformed=14), N(200, 2000)),
                 ("odd-strings", dict(base, apps=["a", "", "ü"], sides=["s1", "", "s\u0000x"], names=["1", "", "ñ", "²", "①"], w_allocate=8,
                                      client_mailboxes=["m1", ""], w_malformed=8), N(80, 600)),
                 ("general", dict(three, w_malformed=4, welcome=True, p_badcv=0.1), N(80, 600)),
@@ -192,6 +209,49 @@ def special_history(pid, profile, seed):
     import gen
     kind = profile["_special"]
     r = random.Random(seed)
+    if kind == "bulk":
+        # more than a thousand mailboxes of one app in ONE sweep (batching limits such as SQLite's 999 bound variables):
+        # "subscribed": every one has a connected subscriber and is idle past the expiration time - all must survive and
+        #               stay deliverable; "expired": nobody is connected - all must go, and re-opening an id replays nothing
+        mode = profile.get("mode") or r.choice(["subscribed", "expired"])
+        n = profile.get("n", 1003)
+        exp, per = info()["expirationTicks"], info()["periodTicks"]
+        t = 8000
+        usage = r.random() < 0.5
+        h = [{"op": "cfg", "rebooted": t, "usage": usage, "allow_list": True, "blur": None}]
+        for i in range(1, n + 1):
+            h += [{"op": "connect", "c": i, "_nodump": True},
+                  {"op": "recv", "c": i, "t": t, "msg": {"type": "bind", "appid": "a", "side": "s%d" % (i % 2)}, "_nodump": True},
+                  {"op": "recv", "c": i, "t": t, "msg": {"type": "open", "mailbox": "bm%04d" % i}, "_nodump": True},
+                  {"op": "recv", "c": i, "t": t, "msg": {"type": "add", "phase": "p", "body": "%04x" % i}, "_nodump": True}]
+            if mode == "expired":
+                h.append({"op": "drop", "c": i, "_nodump": True})
+        c = n
+        h[-1].pop("_nodump", None)          # the state before the sweep is observed
+        t2 = t + exp + 8
+        h.append({"op": "sweep", "now": t2, "fault": False})
+        t3 = t2 + per
+        h.append({"op": "sweep", "now": t3, "fault": False})
+        if mode == "subscribed":
+            # a second side joins every mailbox: it must get the stored message, and the first side the new one
+            for i in list(range(1, n + 1, 97)) + [998, 999, 1000, n]:
+                c += 1
+                h += [{"op": "connect", "c": c, "_nodump": True},
+                      {"op": "recv", "c": c, "t": t3 + 1, "msg": {"type": "bind", "appid": "a", "side": "s%d" % ((i + 1) % 2)}},
+                      {"op": "recv", "c": c, "t": t3 + 1, "msg": {"type": "open", "mailbox": "bm%04d" % i}},
+                      {"op": "recv", "c": c, "t": t3 + 1, "msg": {"type": "add", "phase": "q", "body": "ff"}}]
+        else:
+            for i in range(1, n + 1):
+                c += 1
+                h += [{"op": "connect", "c": c, "_nodump": True},
+                      {"op": "recv", "c": c, "t": t3 + 1, "msg": {"type": "bind", "appid": "a", "side": "s%d" % (i % 2)}, "_nodump": True},
+                      {"op": "recv", "c": c, "t": t3 + 1, "msg": {"type": "open", "mailbox": "bm%04d" % i}, "_nodump": True},
+                      {"op": "drop", "c": c, "_nodump": True}]
+            h[-1].pop("_nodump", None)
+            t4 = t3 + 1 + exp + 8
+            h.append({"op": "sweep", "now": t4, "fault": False})
+            h.append({"op": "sweep", "now": t4 + per, "fault": False})
+        return h, {}
     if kind == "fill":
         # fill 1..9 / 1..99 / 1..999 through the API, with holes, then allocate
         upto = r.choice([9, 9, 9, 9, 99, 99, 99, 999])
